@@ -257,7 +257,9 @@ def run_property(prop, tier=None, seed=None):
     mod = importlib.import_module("rv.props.%s" % prop.lower())
     t0 = time.time()
     descs = mod.shards(tier, seed)
-    timeout_s = getattr(mod, "TIMEOUT", {}).get(tier, 900 if tier == "quick" else 5400)
+    # per-worker wall-clock watchdog: a safety net whose firing is INCONCLUSIVE, never a verdict; the per-check budgets were
+    # sized on an idle machine, so they are tripled (a fully loaded 16-core box slowed single checks by 2-3x)
+    timeout_s = getattr(mod, "TIMEOUT", {}).get(tier, 900 if tier == "quick" else 5400) * float(os.environ.get("RV_WATCHDOG_FACTOR", "3"))
     results, keys, inconc = run_shards(prop, tier, seed, descs, timeout_s,
                                        max_workers=getattr(mod, "MAX_WORKERS", None),
                                        env_for=getattr(mod, "env_for", None))
